@@ -26,6 +26,7 @@ type c19Case struct {
 	Input     []byte `json:"input,omitempty"`
 	Reset     bool   `json:"reset,omitempty"`
 	FailWrite int    `json:"fail_write_from,omitempty"`
+	CloseErr  bool   `json:"close_err,omitempty"` // the transport's Close closes but reports an error
 	Label     string `json:"label,omitempty"`
 	// sched
 	Background int      `json:"background,omitempty"`
@@ -45,7 +46,7 @@ func c19SeqCheck(cs c19Case) (clause, detail string) {
 	if cs.Reset {
 		end = seq.EndReset
 	}
-	out := srv.RunConn(s, seq.NewConn(seq.Script{Input: cs.Input, End: end, FailWriteFrom: cs.FailWrite}))
+	out := srv.RunConn(s, seq.NewConn(seq.Script{Input: cs.Input, End: end, FailWriteFrom: cs.FailWrite, CloseErr: cs.CloseErr}))
 	if out.Panic != "" || out.Spin != "" {
 		return "", "" // C07
 	}
@@ -82,10 +83,12 @@ func c19Seq(c *fw.Ctx) {
 			for cut := 0; cut <= len(in); cut++ {
 				run(c19Case{Kind: "seq", Input: in[:cut], Label: a.Label}, "eof")
 				run(c19Case{Kind: "seq", Input: in[:cut], Reset: true, Label: a.Label}, "reset")
+				run(c19Case{Kind: "seq", Input: in[:cut], Reset: true, CloseErr: true, Label: a.Label}, "reset+close-error")
 			}
 			for j := 1; j <= 3; j++ {
 				run(c19Case{Kind: "seq", Input: concat(in, ping), FailWrite: j, Label: a.Label}, "write-fails")
 				run(c19Case{Kind: "seq", Input: concat(in, ping), FailWrite: j, Reset: true, Label: a.Label}, "write-fails")
+				run(c19Case{Kind: "seq", Input: concat(in, ping), FailWrite: j, Reset: true, CloseErr: true, Label: a.Label}, "write-fails+close-error")
 			}
 			// QUIT at each pipeline position
 			run(c19Case{Kind: "seq", Input: concat(quit, in), Label: a.Label}, "quit")
@@ -127,6 +130,7 @@ type c19World struct {
 	racers  []*vrt.Conn
 	ended   []string // server-side names of the connections that ended
 	stopped bool
+	inStop  bool // the harness thread is inside Server.Stop
 }
 
 func (w *c19World) fail(clause, detail string) { w.viol = append(w.viol, clause+"\x00"+detail) }
@@ -340,6 +344,35 @@ func (w *c19World) stopRace() {
 				c.Recv()
 			}
 		})
+	case "write-parked", "tls-write-parked":
+		// a client that pipelines and stops reading: the server's reply Write is parked
+		// on the full connection when Stop runs
+		if w.cs.StopRace == "write-parked" {
+			cl, o := sched.Dial(":6379")
+			if o.Status == "ok" {
+				racers = append(racers, cl.Raw())
+				cl.Raw().Capacity = 8
+				for i := 0; i < 6; i++ {
+					cl.Send(resp.Cmd("ECHO", "0123456789").Bytes())
+				}
+				vrt.WaitQuiet()
+			}
+		} else {
+			raw, err := vrt.Dial(":6380")
+			if err == nil {
+				racers = append(racers, raw)
+				tc := tls.Client(raw, w.kit.clientTLSConfig(w.kit.Clients["valid"]))
+				if tc.Handshake() == nil {
+					c := sched.Wrap(tc, raw)
+					c.Do("PING")
+					raw.Capacity = 8
+					for i := 0; i < 6; i++ {
+						c.Send(resp.Cmd("ECHO", "0123456789").Bytes())
+					}
+					vrt.WaitQuiet()
+				}
+			}
+		}
 	case "after-second-start":
 		// Start on the running server (refused or not) must not make the
 		// server forget the connections it is serving
@@ -366,16 +399,28 @@ func (w *c19World) stopRace() {
 			vrt.WaitQuiet() // the server is now waiting for a ClientHello that never comes
 		}
 	}
+	w.inStop = true
 	if err := w.srv.Stop(); err != nil {
 		w.fail("stop-note", "")
 		w.viol = w.viol[:len(w.viol)-1]
 	}
+	w.inStop = false
 	w.stopped = true
 	w.racers = racers
 }
 
 func (w *c19World) atQuiet(e *vrt.Exec) {
 	if w.err != "" || w.srv == nil {
+		return
+	}
+	if w.inStop {
+		parked := ""
+		for _, t := range e.ThreadStates() {
+			if t.ID == 0 {
+				parked = t.Parked
+			}
+		}
+		w.fail("stop-did-not-return", fmt.Sprintf("Server.Stop (%s) never returned: the calling goroutine is parked at %s and nothing can wake it", w.cs.StopRace, parked))
 		return
 	}
 	if w.stopped {
@@ -444,7 +489,7 @@ func c19Run(c *fw.Ctx) {
 		return seqs
 	}
 	var races, len12, len3 []c19Case
-	for _, race := range []string{"connecting", "backlog", "in-flight", "tls-handshaking", "tls-stalled", "after-second-start"} {
+	for _, race := range []string{"connecting", "backlog", "in-flight", "tls-handshaking", "tls-stalled", "after-second-start", "write-parked", "tls-write-parked"} {
 		for bg := 0; bg <= 1; bg++ {
 			races = append(races, c19Case{Kind: "sched", Background: bg, StopRace: race, Endings: []string{"stop:" + race}})
 		}
@@ -575,7 +620,7 @@ func init() {
 	fw.Register(&fw.Prop{
 		ID:          "C19",
 		Level:       "fault_enumeration",
-		Rule:        "(sequential) representative requests, alone and behind a PING: end of stream at EVERY byte offset with EOF and with reset, a Write failing from call 1..3, QUIT at each pipeline position (also with a failing write), every single-byte substitution of 18 valid streams; oracle: loop returned, transport closed, registry empty. (scheduled) a server with plain and TLS port started with Start(), 0..2 background connections, then every sequence of 1..2 endings out of {EOF at a boundary, EOF inside a request, reset inside a request, QUIT, malformed frame, client that stops reading until the server's Write parks and then resets, TLS garbage handshake, TLS abort after ClientHello, TLS certificate rejected by the common-name rule, valid TLS client then reset, valid TLS client then orderly close}, real crypto/tls, every schedule with <=1 deviation (thorough phases, in order: sequences of 3 endings on the default schedule, Stop races at bound 3, sequences of <=2 endings at bound 2, sequences of 3 at bound 1; each complete only when its <phase>_done counter equals <phase>_scenarios); after each ending, at quiescence: the server closed that socket, no server goroutine is parked on it, the registry holds exactly the background connections, which are still served; finally Stop releases everything (sockets, goroutines, registry, listeners). Plus churn (every ending mode three times in a row, forwards and pairwise backwards, with two connections kept open, default schedule; thorough: one deviation), and Stop racing with a connecting client, a client still in the accept backlog, a client with a command in flight, a client in the TLS handshake and one stalled before its ClientHello, and Stop after a second Start() on the running server, which must leave registry and connections as they were (deviation bound 2).",
+		Rule:        "(sequential) representative requests, alone and behind a PING: end of stream at EVERY byte offset with EOF, with reset, and with reset where the transport's Close reports an error although it closes (TLS peer gone), a Write failing from call 1..3, QUIT at each pipeline position (also with a failing write), every single-byte substitution of 18 valid streams; oracle: loop returned, transport closed, registry empty. (scheduled) a server with plain and TLS port started with Start(), 0..2 background connections, then every sequence of 1..2 endings out of {EOF at a boundary, EOF inside a request, reset inside a request, QUIT, malformed frame, client that stops reading until the server's Write parks and then resets, TLS garbage handshake, TLS abort after ClientHello, TLS certificate rejected by the common-name rule, valid TLS client then reset, valid TLS client then orderly close}, real crypto/tls, every schedule with <=1 deviation (thorough phases, in order: sequences of 3 endings on the default schedule, Stop races at bound 3, sequences of <=2 endings at bound 2, sequences of 3 at bound 1; each complete only when its <phase>_done counter equals <phase>_scenarios); after each ending, at quiescence: the server closed that socket, no server goroutine is parked on it, the registry holds exactly the background connections, which are still served; finally Stop releases everything (sockets, goroutines, registry, listeners). Plus churn (every ending mode three times in a row, forwards and pairwise backwards, with two connections kept open, default schedule; thorough: one deviation), and Stop racing with a connecting client, a client still in the accept backlog, a client with a command in flight, a client in the TLS handshake one stalled before its ClientHello, a plain and a TLS client that pipelined requests and stopped reading so that the server's reply Write is parked, and Stop after a second Start() on the running server, which must leave registry and connections as they were (deviation bound 2).",
 		Assumptions: []string{"the in-memory transport is the only kind of descriptor the framework opens besides listeners: 'descriptor released' = Close called on it", "10^4-cycle churn and /proc/self/fd counts are replaced by zero residue per ending from every reachable small registry state"},
 		Run:         c19Run,
 		Replay:      c19Replay,
